@@ -28,6 +28,7 @@ def stories():
             {"upstream": [], "upstream2": [], "clients": [], "stopAfterMs": 20, "drain": True}]},
         # the agent's own main path (run.Run in a child process): SIGTERM stops it, SIGHUP reloads it, exit status 0
         {"id": "main-path-stop-healthy", "viaRun": True, "keys": 2, "memWindow": 0, "gens": [{"upstream": ["healthy"], "clients": [c(20, 5, 35), dict(c(6), keepOpen=True)], "stopAfterMs": 20, "inputFlushMs": 400}, fin]},
+        {"id": "main-path-stop-by-sigint", "viaRun": True, "stopWithInt": True, "keys": 2, "memWindow": 0, "gens": [{"upstream": ["noAck"] * 6, "clients": [c(20, 5, 35), dict(c(6), keepOpen=True)], "stopAfterMs": 20, "inputFlushMs": 400}, fin]},
         {"id": "main-path-upstream-down", "viaRun": True, "keys": 1, "memWindow": 0, "gens": [{"upstream": ["closeNow"] * 40, "clients": [c(30, 10, 35)], "stopAfterMs": 50}, fin]},
         {"id": "main-path-sighup", "viaRun": True, "keys": 2, "memWindow": 0, "gens": [
             {"upstream": ["healthy"], "clients": [c(40, 4, 35)], "reload": "transform", "reloadAtMs": 60, "stopAfterMs": 50},
